@@ -283,9 +283,32 @@ def _derive_seed(seed, part_name, shard):
     return (seed * 1000003 + zlib.crc32(part_name.encode()) * 31 + shard * 7919) % (2**31 - 1)
 
 
-def _evaluate(part, case, stats):
+class CaseTimeout(BaseException):
+    """Raised (through SIGALRM) when one case does not return; not an Exception, so that Hypothesis does not try to shrink it."""
+
+
+def _case_limit(tier):
+    """Seconds after which a single case counts as not terminating. Ordinary cases take milliseconds to a few seconds even on a
+    loaded machine; the limit only exists so that a change which makes the library loop forever on a valid input ends the check
+    with a report instead of hanging it."""
+    return int(os.environ.get('VERIF_CASE_LIMIT', '600' if tier == 'quick' else '1800'))
+
+
+def _evaluate(part, case, stats, limit=0):
+    import signal
     rec = Rec()
-    part.check(case, rec)
+    use_alarm = limit > 0 and hasattr(signal, 'SIGALRM')
+    if use_alarm:
+        def on_alarm(signum, frame):
+            raise CaseTimeout()
+        old = signal.signal(signal.SIGALRM, on_alarm)
+        signal.alarm(limit)
+    try:
+        part.check(case, rec)
+    finally:
+        if use_alarm:
+            signal.alarm(0)
+            signal.signal(signal.SIGALRM, old)
     stats.add(case, rec)
 
 
@@ -337,7 +360,14 @@ def _work(args):
 
         def guarded(case):
             try:
-                _evaluate(part, case, stats)
+                _evaluate(part, case, stats, _case_limit(tier))
+            except CaseTimeout as e:
+                last_fail['case'] = json.loads(canon(case))
+                v = Violation('the case did not return within %d s (ordinary cases take seconds at most): the library does not terminate on this input' % _case_limit(tier))
+                last_fail['exc'] = v
+                last_fail['tb'] = e.__traceback__
+                last_fail['timeout'] = True
+                raise
             except BaseException as e:  # noqa
                 if isinstance(e, (KeyboardInterrupt, SystemExit)):
                     raise
@@ -352,7 +382,7 @@ def _work(args):
                     continue
                 try:
                     guarded(case)
-                except Exception:
+                except (Exception, CaseTimeout):
                     break
         else:
             import hypothesis
@@ -369,6 +399,8 @@ def _work(args):
                 guarded(case)
             try:
                 t()
+            except CaseTimeout:
+                pass
             except Exception as e:  # noqa
                 if 'exc' not in last_fail:
                     # raised by hypothesis itself (e.g. Flaky, Unsatisfiable)
